@@ -371,6 +371,27 @@ def mutate_node(rng, n, kinds_hint):
             return "concat-id-changed"
         n[k] = str(n.get(k)) + "_x"
         return "concat-label-changed"
+    if op == "convert_records":
+        rm = copy.deepcopy(n["record_map"])
+        sp = rm.get("blocks_out") or rm.get("blocks_in")
+        nk = len(sp["control_table_keys"])
+        rows = sp["control_table"]["rows"]
+        if r < 0.35:
+            rows[0][0] = str(rows[0][0]) + "_x"      # a cell of the control table's key column
+            n["record_map"] = rm
+            return "record-map-key-cell"
+        if r < 0.6 and len(rows) > 1:
+            rows[0][nk], rows[1][nk] = rows[1][nk], rows[0][nk]   # which content name sits in which block row
+            n["record_map"] = rm
+            return "record-map-content-swapped"
+        if r < 0.8:
+            sp["control_table"]["cols"][-1] = sp["control_table"]["cols"][-1] + "_r"   # a value column name
+            n["record_map"] = rm
+            return "record-map-value-column-name"
+        sp["control_table"]["cols"][0] = sp["control_table"]["cols"][0] + "_r"
+        sp["control_table_keys"] = [sp["control_table"]["cols"][0]] + list(sp["control_table_keys"][1:])
+        n["record_map"] = rm
+        return "record-map-key-column-name"
     if op == "table":
         if r < 0.3:
             n["_rename_table"] = n["name"] + "_other"
@@ -542,12 +563,26 @@ def run_batch(seed, batch, tier):
                     b.count("text_vs_term_build", "equal" if pt == p else "different")
                 except Exception:
                     b.count("text_vs_term_build", "term-build-raised")
-                for _ in range(MUT_PER_CASE):
+                for mi in range(MUT_PER_CASE):
                     rc = copy.deepcopy(case["recipe"])
                     nodes = list(B.walk(rc))
                     n = rng.choice(nodes)
+                    shared_variant = False
+                    if mi == 0:
+                        # p reaches one step object along two paths: give q a private, mutated copy on the second path
+                        bins = [x for x in nodes if "right" in x and x["right"]["op"] != "table"
+                                and any(y is z for y in B.walk(x["src"]) for z in B.walk(x["right"]) if y["op"] != "table")]
+                        if bins:
+                            x = rng.choice(bins)
+                            x["right"] = copy.deepcopy(x["right"])
+                            inner = [y for y in B.walk(x["right"]) if y["op"] != "table"]
+                            n = rng.choice(inner)
+                            shared_variant = True
+                            b.count("shared_subpipeline_pairs")
                     try:
                         label = mutate_node(rng, n, kinds_hint)
+                        if label is not None and shared_variant:
+                            label = "second-use-of-shared-step:" + label
                     except Exception as ex:
                         b.count("mutator_error", type(ex).__name__)
                         continue
